@@ -176,6 +176,31 @@ def exclusion_check(ctx, ptoks, etoks, idx, glob_mode):
     except Exception as e:  # noqa: BLE001
         ctx.disagree(f'compile with exclusion raised {type(e).__name__}', {'pattern': pat, 'exclude': epat, 'glob_mode': glob_mode})
         return
+    # exclusions alone under NEGATEALL: the implicit match-everything inclusion is an ordinary `*` / `**` (no forced dot-matching)
+    implicit = (('gstar',),) if glob_mode else (('star',),)
+    try:
+        na = [('NEGATEALL !', mod.compile('!' + epat, flags=base | mod.NEGATE | mod.NEGATEALL)),
+              ('NEGATEALL - (list)', mod.compile(['-' + epat, '-' + epat], flags=base | mod.NEGATE | mod.NEGATEALL | mod.MINUSNEGATE))]
+        ti, te = mod.translate('!' + epat, flags=base | mod.NEGATE | mod.NEGATEALL)
+        ti, te = [re.compile(x) for x in ti], [re.compile(x) for x in te]
+    except Exception as e:  # noqa: BLE001
+        ctx.disagree(f'compile with NEGATEALL raised {type(e).__name__}', {'exclude': epat, 'glob_mode': glob_mode})
+        return
+    for n in names:
+        inc = ref(implicit, n, False)
+        exc = ref(etoks, n, True)
+        if exc is None or inc is None:
+            continue
+        exp = inc and not exc
+        ctx.evals()
+        ctx.count('negateall_checks')
+        for api, m in na + [('translate NEGATEALL !', None)]:
+            got = m.match(n) if m else (any(r.fullmatch(n) for r in ti) and not any(r.fullmatch(n) for r in te))
+            if got is not exp:
+                ctx.disagree(f'exclusions alone ({api}): the implicit inclusion of NEGATEALL is not an ordinary match-everything pattern: expected {exp} got {got}',
+                             {'api': api, 'exclude': epat, 'glob_mode': glob_mode, 'name': n, 'implicit_inclusion_alone': inc,
+                              'exclusion_with_dot': exc, 'expected': exp, 'observed': got, 'east': etoks})
+                break
     for n in names:
         inc = ref(ptoks, n, False)
         exc = ref(etoks, n, True)
